@@ -850,3 +850,63 @@ impl CommanderIds {
         }
     }
 }
+
+/// Verification hooks (feature `verif_hooks` only): drive a `CommandOutput` one step at a time.
+#[cfg(feature = "verif_hooks")]
+pub mod verif {
+    use std::{future::Future, pin::Pin};
+
+    use swimos_api::address::RelativeAddress;
+    use swimos_model::Text;
+    use swimos_utilities::{byte_channel::ByteWriter, future::RetryStrategy};
+    use uuid::Uuid;
+
+    use super::{CmdChannelWriter, CommandOutput};
+
+    /// The channel writer of a command output while it is lent out to a write.
+    #[derive(Debug)]
+    pub struct WriterHandle(CmdChannelWriter);
+
+    pub type PendingWrite = Pin<Box<dyn Future<Output = Result<WriterHandle, std::io::Error>>>>;
+
+    /// Wrapper around the private `CommandOutput`.
+    #[derive(Debug)]
+    pub struct CommandOutputSim {
+        inner: CommandOutput,
+    }
+
+    impl CommandOutputSim {
+        pub fn new(identity: Uuid) -> Self {
+            CommandOutputSim {
+                inner: CommandOutput::new(identity, RetryStrategy::none()),
+            }
+        }
+
+        /// The connection was established.
+        pub fn set_writer(&mut self, writer: ByteWriter) {
+            self.inner.replace_writer(CmdChannelWriter::new(writer));
+        }
+
+        pub fn has_writer(&self) -> bool {
+            self.inner.writer.is_some()
+        }
+
+        pub fn append(&mut self, node: &str, lane: &str, body: &[u8], overwrite_permitted: bool) {
+            let key = RelativeAddress::new(Text::new(node), Text::new(lane));
+            self.inner.append(&key, body, overwrite_permitted);
+        }
+
+        /// Schedule a write of everything pending (if the writer is present).
+        pub fn write(&mut self) -> Option<PendingWrite> {
+            self.inner.write().map(|fut| {
+                let boxed: PendingWrite = Box::pin(async move { fut.await.map(WriterHandle) });
+                boxed
+            })
+        }
+
+        /// A write completed.
+        pub fn write_done(&mut self, writer: WriterHandle) {
+            self.inner.replace_writer(writer.0);
+        }
+    }
+}
